@@ -2516,17 +2516,16 @@ func (s *BgpServer) AddPath(req apiutil.AddPathRequest) ([]apiutil.AddPathRespon
 	if len(req.Paths) == 0 {
 		return []apiutil.AddPathResponse{}, fmt.Errorf("no path(s) to add")
 	}
-	isVRF := false
-	if req.VRFID != "" {
-		if _, ok := s.globalRib.GetVrf(req.VRFID); !ok {
-			return []apiutil.AddPathResponse{}, fmt.Errorf("vrf %s not found", req.VRFID)
-		}
-		isVRF = true
-	}
-
 	resps := make([]apiutil.AddPathResponse, len(req.Paths))
 	var lastErr error
 	err := s.mgmtOperation(func() error {
+		isVRF := false
+		if req.VRFID != "" {
+			if _, ok := s.globalRib.GetVrf(req.VRFID); !ok {
+				return fmt.Errorf("vrf %s not found", req.VRFID)
+			}
+			isVRF = true
+		}
 		for i, p := range req.Paths {
 			if p == nil {
 				lastErr = errors.New("path is nil")
@@ -2568,14 +2567,14 @@ func (s *BgpServer) AddPath(req apiutil.AddPathRequest) ([]apiutil.AddPathRespon
 // if uuids is not empty, it will delete paths with the given UUIDs otherwise it will delete specified paths
 // deleteAll == false and uuids is empty, paths must contain at least one path
 func (s *BgpServer) DeletePath(req apiutil.DeletePathRequest) error {
-	isVRF := false
-	if req.VRFID != "" {
-		if _, ok := s.globalRib.GetVrf(req.VRFID); !ok {
-			return fmt.Errorf("vrf %s not found", req.VRFID)
-		}
-		isVRF = true
-	}
 	return s.mgmtOperation(func() error {
+		isVRF := false
+		if req.VRFID != "" {
+			if _, ok := s.globalRib.GetVrf(req.VRFID); !ok {
+				return fmt.Errorf("vrf %s not found", req.VRFID)
+			}
+			isVRF = true
+		}
 		deletePathList := make([]*table.Path, 0)
 		// delete by uuid
 		if len(req.UUIDs) > 0 {
